@@ -445,6 +445,10 @@ func (r *Run) Finish() int {
 			return 2
 		}
 		p := filepath.Join(r.Dir, "evidence", r.ID+".json")
+		if d := os.Getenv("VERIF_EVIDENCE_DIR"); d != "" {
+			// mutant runs must not overwrite the evidence of the real tree
+			p = filepath.Join(d, r.ID+".json")
+		}
 		os.MkdirAll(filepath.Dir(p), 0o755)
 		if err := os.WriteFile(p, append(data, '\n'), 0o644); err != nil {
 			fmt.Fprintln(os.Stderr, "evidence write:", err)
